@@ -51,24 +51,142 @@ def build_library(it, P, shape, concrete_field_keys=False):
     return lib, descr
 
 
+def _facts_le0(assumptions):
+    """Linear forms known to be <= 0 on this path (integers: d > 0 means -d + 1 <= 0; a maximum <= 0 means every item <= 0)."""
+    out = []
+    for (a, op, res) in assumptions:
+        le0 = (op == "LtE" and res) or (op == "Gt" and not res) or (op in ("Eq",) and res) or (op == "NotEq" and not res)
+        lt0 = (op == "Lt" and res) or (op == "GtE" and not res)
+        ge0 = (op == "GtE" and res) or (op == "Lt" and not res) or (op in ("Eq",) and res) or (op == "NotEq" and not res)
+        gt0 = (op == "Gt" and res) or (op == "LtE" and not res)
+        if isinstance(a, MaxOf):
+            if le0:
+                out.extend(a.items)
+            if lt0:
+                out.extend(x.add(1) for x in a.items)
+        elif isinstance(a, Lin):
+            if le0:
+                out.append(a)
+            if lt0:
+                out.append(a.add(1))
+            if ge0:
+                out.append(a.neg())
+            if gt0:
+                out.append(a.neg().add(1))
+    return out
+
+
+class DiffConstraints:
+    """Closure of the path's difference constraints (x - y <= c, x <= c, -y <= c over lengths / line counts, which are >= 0):
+    all-pairs shortest paths; a negative cycle means the path's assumptions are contradictory."""
+
+    ZERO = ("zero",)
+
+    def __init__(self, assumptions):
+        INF = float("inf")
+        self.nodes = [self.ZERO]
+        edges = {}
+
+        def node(k):
+            if k not in self.nodes:
+                self.nodes.append(k)
+            return k
+
+        def add(y, x, w):       # x - y <= w
+            if w < edges.get((y, x), INF):
+                edges[(y, x)] = w
+        for f in _facts_le0(assumptions):
+            terms = list(f.terms.items())
+            if len(terms) == 1 and abs(terms[0][1]) == 1:
+                (k, c), = terms
+                if c == 1:
+                    add(self.ZERO, node(k), -f.const)        # x + const <= 0
+                else:
+                    add(node(k), self.ZERO, -f.const)        # -y + const <= 0
+            elif len(terms) == 2 and sorted(c for _, c in terms) == [-1, 1]:
+                x = next(k for k, c in terms if c == 1)
+                y = next(k for k, c in terms if c == -1)
+                add(node(y), node(x), -f.const)
+        for k in list(self.nodes):
+            if k is not self.ZERO and k[0] in ("len", "lines"):
+                add(k, self.ZERO, 0)                        # 0 - x <= 0
+        n = self.nodes
+        self.d = {(a, b): (0 if a == b else edges.get((a, b), INF)) for a in n for b in n}
+        for m in n:
+            for a in n:
+                for b in n:
+                    if self.d[(a, m)] + self.d[(m, b)] < self.d[(a, b)]:
+                        self.d[(a, b)] = self.d[(a, m)] + self.d[(m, b)]
+        self.infeasible = any(self.d[(a, a)] < 0 for a in n)
+
+    def upper(self, f):
+        """Least upper bound of the linear form implied by the constraints, or None."""
+        terms = list(f.terms.items())
+        if not terms:
+            return f.const
+        if len(terms) == 1 and abs(terms[0][1]) == 1:
+            (k, c), = terms
+            if k not in self.nodes:
+                return 0 + f.const if c == -1 and k[0] in ("len", "lines") else None
+            v = self.d[(self.ZERO, k)] if c == 1 else self.d[(k, self.ZERO)]
+        elif len(terms) == 2 and sorted(c for _, c in terms) == [-1, 1]:
+            x = next(k for k, c in terms if c == 1)
+            y = next(k for k, c in terms if c == -1)
+            if x not in self.nodes or y not in self.nodes:
+                return None
+            v = self.d[(y, x)]
+        else:
+            return None
+        return None if v == float("inf") else v + f.const
+
+
 def nonpositive(d, assumptions) -> bool:
     """Do the path's assumptions imply d <= 0 ?"""
-    def key(x):
-        return x.key()
     from ..symdom import bounds
     if bounds(d)[1] is not None and bounds(d)[1] <= 0:
         return True
-    neg = None
-    if isinstance(d, Lin):
-        neg = d.neg()
-    for (a, op, res) in assumptions:
-        if type(a) is type(d) and key(a) == key(d):
-            if (op == "LtE" and res) or (op == "Lt" and res) or (op == "Gt" and not res) or (op == "GtE" and not res) or (op == "Eq" and res):
-                return True
-        if neg is not None and isinstance(a, Lin) and key(a) == key(neg):
-            if (op == "GtE" and res) or (op == "Gt" and res) or (op == "LtE" and not res) or (op == "Lt" and not res):
-                return True
-    return False
+    if isinstance(d, MaxOf):
+        return all(nonpositive(x, assumptions) for x in d.items)
+    if not isinstance(d, Lin):
+        return False
+    key = id(assumptions), len(assumptions)
+    dc = _DC_CACHE.get(key)
+    if dc is None:
+        _DC_CACHE.clear()
+        dc = _DC_CACHE[key] = DiffConstraints(assumptions)
+    up = dc.upper(d)
+    return up is not None and up <= 0
+
+
+_DC_CACHE = {}
+
+
+def normalise_pads(template, assumptions):
+    """Both sides of the comparison are simplified with the path's assumptions: a padding of max(items) loses the items another
+    item dominates, and a padding that is provably <= 0 disappears."""
+    out = []
+    for x in (template.pieces if isinstance(template, Template) else [template]):
+        if isinstance(x, Pad):
+            n = x.n
+            if isinstance(n, MaxOf):
+                items = list(n.items)
+                kept = []
+                for i_, a_ in enumerate(items):
+                    dominated = False
+                    for j_, b_ in enumerate(items):
+                        if j_ == i_:
+                            continue
+                        if nonpositive(a_.add(b_, -1), assumptions) and (not nonpositive(b_.add(a_, -1), assumptions) or j_ < i_):
+                            dominated = True
+                            break
+                    if not dominated:
+                        kept.append(a_)
+                n = kept[0] if len(kept) == 1 else mk_max(kept) if kept else n
+            if nonpositive(n, assumptions):
+                continue
+            x = Pad(n, x.ch)
+        out.append(x)
+    return Template(out)
 
 
 def ref_write(descr, opts, assumptions, all_key_lens):
@@ -168,6 +286,8 @@ def check_templates(P: Program, rep: Report, rule: str, rule_fmt, shapes, traili
                 for ctx, (kind, out, it, descr, opts, same) in explore(run1, 5000):
                     if kind == "setup-raise":
                         continue  # e.g. negative value_column rejected by the setter
+                    if it is not None and DiffConstraints(getattr(it, "lin_assumptions", [])).infeasible:
+                        continue    # the sign decisions taken along this path contradict each other: not a real execution
                     n_paths += 1
                     if kind == "unsupported":
                         raise AnalysisError(f"{rule}: analyser cannot follow write(): {out}")
@@ -178,6 +298,8 @@ def check_templates(P: Program, rep: Report, rule: str, rule_fmt, shapes, traili
                     key_lens = [Lin({("len", f"b{d[1]}.f{j}.key"): 1}, 0) for d in descr if d[0] == "entry" for j in range(d[2])]
                     want = ref_write(descr, opts, it.lin_assumptions, key_lens)
                     got = out if isinstance(out, Template) else Template([out]) if isinstance(out, (str, Hole)) else out
+                    if isinstance(got, Template):
+                        got, want = normalise_pads(got, it.lin_assumptions), normalise_pads(want, it.lin_assumptions)
                     if got == want:
                         rep.ok(rule, f"template:{cfg}:{'/'.join(a.split(' = ')[-1] for a in ctx.assumed[-3:])}", wfn.loc, nontrivial=True)
                     else:
@@ -186,7 +308,7 @@ def check_templates(P: Program, rep: Report, rule: str, rule_fmt, shapes, traili
                         i = next((i for i, (a, b) in enumerate(zip(gp, wp)) if not (a == b)), min(len(gp), len(wp)))
                         rep.fail(rule, f"template:{cfg}", wfn.loc,
                                  f"written text differs from the format contract for {cfg} at piece {i}: got {gp[max(0,i-2):i+3]!r}, "
-                                 f"contract {wp[max(0,i-2):i+3]!r} (assumptions {ctx.assumed[-3:]})")
+                                 f"contract {wp[max(0,i-2):i+3]!r} (assumptions {ctx.assumed[-8:]})")
                     if rule_fmt:
                         rep.check(bool(same), rule_fmt, f"format-unchanged:{cfg}", wfn.loc,
                                   f"write() modifies the format object it was given ({cfg})")
@@ -206,9 +328,11 @@ def run(P: Program, rep: Report):
     props = [n for n, m in fmtcls.methods.items() if m.is_property]
     rep.require_count("C06.R1", "BibtexFormat options", len(props), 5)
     reads = {p: [] for p in props}
-    for f in wmod.functions.values():
+    for f in P.all_funcs:
+        if f.module is not wmod or (f.cls is not None and f.cls is fmtcls):
+            continue
         for n in ast.walk(f.node):
-            if isinstance(n, ast.Attribute) and isinstance(n.ctx, ast.Load) and n.attr in reads and not (isinstance(n.value, ast.Name) and n.value.id == "self"):
+            if isinstance(n, ast.Attribute) and isinstance(n.ctx, ast.Load) and n.attr in reads and not (isinstance(n.value, ast.Name) and n.value.id == "self" and f.cls is fmtcls):
                 reads[n.attr].append(f"{f.name}:{n.lineno}")
     for p in props:
         rep.check(bool(reads[p]), "C06.R1", f"option:{p}", fmtcls.methods[p].loc,
@@ -223,7 +347,11 @@ def run(P: Program, rep: Report):
                        "failed blocks = configured comment formatted with the line count, newline, raw, newline; 'auto' = "
                        "max key length over all entries + 3")
     rep.rule("C06.R2", "the format object passed to write() is left unchanged (same option values afterwards), also for 'auto'")
-    n_cfg, n_paths = check_templates(P, rep, "C06.R3", "C06.R2", SHAPES)
+    shapes = list(SHAPES)
+    if rep.tier == "thorough":
+        shapes += [[("entry", 4)], [("entry", 5), "string"], [("entry", 1), "string", "preamble", "comment", ("entry", 0), "implicit"],
+                   ["comment", ("entry", 2), "string", "failed", "preamble", "implicit", ("entry", 1)], [("entry", 2), ("entry", 2), ("entry", 1)]]
+    n_cfg, n_paths = check_templates(P, rep, "C06.R3", "C06.R2", shapes)
     rep.count("writer_configurations", n_cfg)
     rep.count("writer_paths", n_paths)
     rep.require_count("C06.R3", "writer paths explored", n_paths, 40)
@@ -231,22 +359,74 @@ def run(P: Program, rep: Report):
     # ------------------------------------------------------------ uniformity of the index predicates
     rep.rule("C06.R4", "the comma and separator predicates compare the loop index only with len(...)-1 of the sequence being "
                        "enumerated or with the first index (so the explored sizes 0..3 / 0..5 generalise to every size)")
-    for fname in ("_treat_entry", "write"):
-        f = wmod.functions.get(fname)
-        if f is None:
-            raise AnalysisError(f"anchor vanished: writer.{fname}")
+    undecided = []
+    n_cmp = 0
+    for f in P.all_funcs:
+        if f.module is not wmod or f.cls is fmtcls:
+            continue
         idx_names = set()
         for n in own_nodes(f.node):
             if isinstance(n, ast.For) and isinstance(n.iter, ast.Call) and ast.unparse(n.iter.func) == "enumerate" and isinstance(n.target, ast.Tuple):
                 if isinstance(n.target.elts[0], ast.Name):
                     idx_names.add((n.target.elts[0].id, ast.unparse(n.iter.args[0])))
+        # local names bound once to an expression of len(...) (hoisted bounds)
+        len_names = {}
+        for n in own_nodes(f.node):
+            if isinstance(n, ast.Assign) and len(n.targets) == 1 and isinstance(n.targets[0], ast.Name) and "len(" in ast.unparse(n.value):
+                len_names[n.targets[0].id] = len_names.get(n.targets[0].id, 0) + 1
         for (iname, seq) in idx_names:
             for n in own_nodes(f.node):
                 if isinstance(n, ast.Compare) and any(isinstance(x, ast.Name) and x.id == iname for x in ast.walk(n)):
                     other = [c for c in [n.left] + n.comparators if not (isinstance(c, ast.Name) and c.id == iname)]
-                    ok = len(other) == 1 and (f"len({seq})" in ast.unparse(other[0]) or (isinstance(other[0], ast.Constant) and other[0].value in (0, 1)))
-                    rep.check(ok, "C06.R4", f"{fname}:index-compare:{norm_stmt(n)}", f"{wmod.relpath}:{n.lineno}",
-                              f"loop index {iname} is compared with {ast.unparse(other[0]) if other else '?'}, not with the length of the enumerated sequence {seq}")
+                    n_cmp += 1
+                    ok = len(other) == 1 and ("len(" in ast.unparse(other[0]) or (isinstance(other[0], ast.Constant) and other[0].value in (0, 1))
+                                              or (isinstance(other[0], ast.Name) and len_names.get(other[0].id) == 1))
+                    if ok:
+                        rep.ok("C06.R4", f"{f.name}:index-compare:{norm_stmt(n)}", f"{wmod.relpath}:{n.lineno}")
+                    else:
+                        undecided.append((f, n, iname))
+    if undecided or not n_cmp:
+        # the syntactic uniformity argument does not apply to this shape of the code: widen the explored sizes instead
+        # (entries with 4 and 5 fields, libraries with 6 and 7 blocks must follow the same template)
+        wide = [[("entry", 4)], [("entry", 5), "string"], [("entry", 1), "string", "preamble", "comment", ("entry", 0), "implicit"],
+                ["comment", ("entry", 2), "string", "failed", "preamble", "implicit", ("entry", 1)]]
+        check_templates(P, rep, "C06.R4", None, wide, trailings=(True, False), vcmodes=("sym",))
+
+    rep.rule("C06.R6", "every configured warning comment is usable: a comment text with other braces than the `{n}` placeholder (`% failed {block}`, "
+                       "`% }`) does not make write() raise; it is emitted for the failed block")
+
+    def literal_comment(ctx, text):
+        it = driver_interp(P, ctx, "writer", {}, None)
+        mk = lambda cls, *a, **k: new_obj(it, P, "model", cls, *a, **k)
+        lib = new_obj(it, P, "library", "Library")
+        call(it, lib, "add", AList([mk("ParsingFailedBlock", error=Unknown("err"), start_line=0, raw="@x{oops"),
+                                    mk("Entry", entry_type="a", key="k", fields=AList([]), start_line=1, raw="r")]))
+        fmt = new_obj(it, P, "writer", "BibtexFormat")
+        try:
+            it.set_attr(fmt, "parsing_failed_comment", text)
+        except Raised as r:
+            return ("rejected", r.cls_name())       # a setter that refuses the text is fine: the format is then never in that state
+        try:
+            out = call_func(it, wfn, lib, fmt)
+            return ("return", out)
+        except Raised as r:
+            return ("raise", r.cls_name())
+        except (Unsupported, LoopBound) as u:
+            raise AnalysisError(f"C06.R6: analyser cannot follow write(): {u}")
+    for text in ("% failed {block}", "% closing } brace", "% open { brace", "% {0} positional", "% {n} lines", "% plain"):
+        for ctx, (kind, v) in explore(lambda c, t=text: literal_comment(c, t), 20):
+            ok = kind in ("return", "rejected")
+            if kind == "return" and isinstance(v, str):
+                ok = "@x{oops" in v
+            rep.check(ok, "C06.R6", f"warning-comment:{text!r}", wfn.loc,
+                      f"write() with parsing_failed_comment = {text!r} {'raises ' + str(v) if kind == 'raise' else 'returns ' + repr(v)[:80]}: the configured "
+                      f"comment must be written (or refused when it is set), not crash the writer")
+
+    rep.rule("C06.R5", "through write_string the contract holds for the library that is written: the 'auto' column is computed by write() from "
+                       "the unparse stack's result, write_string does not look into the library it was given")
+    from .c20 import auto_format_flow
+    probs, npaths = auto_format_flow(P)
+    rep.check(not probs, "C06.R5", "write_string:auto-column-from-written-library", P.func("entrypoint", "write_string").loc, probs[0] if probs else "")
 
     rep.rule("C06.R9", "no unsafe memoisation in the modules this property rests on: a function decorated with lru_cache / cache / "
                       "cached_property neither takes nor returns a mutable object (else later calls see stale or shared results)")
